@@ -10,6 +10,9 @@ from pfv import terms as tm
 from pfv import smt, fc
 from pfv.framework import Obligation, Verdict, real_exec
 from pfv.proxies import explore, SReal, SInt, Unsupported, ctx, lift
+import functools as _ft
+_explore_raw = explore
+explore = _ft.partial(_explore_raw, enforce_bounds=True)     # shim range assumptions (slices / indices) must be provable on every returning path
 
 N, T, I = tm.var('N', 'I'), tm.var('T', 'I'), tm.var('i', 'I')
 K, SIGMA, DT, B = tm.var('K'), tm.var('sigma'), tm.var('dt'), tm.var('B')
